@@ -10,7 +10,7 @@ import re
 try:
     import pyparsing
     from pyparsing import CaselessLiteral, Combine, OneOrMore, Optional, \
-        TokenConverter, Word, nums, oneOf, printables, ParserElement, alphanums
+        TokenConverter, Word, WordEnd, nums, oneOf, printables, ParserElement, alphanums
 except ImportError:
     pyparsing = None
     TokenConverter = object
@@ -1116,8 +1116,10 @@ class FileParser(object):
         # special case for a float written like "3e5"
         mixed_exp = _ToFloat(Combine(Optional(sign) + digits + ee + Optional(sign) + digits))
 
+        # a nan/inf token must end at a field boundary ("Info" is text, not inf followed by "o")
         nan = (_ToInf(oneOf("Inf -Inf")) |
-               _ToNan(oneOf("NaN nan NaN%  NaNQ NaNS qNaN sNaN 1.#SNAN 1.#QNAN -1.#IND")))
+               _ToNan(oneOf("NaN nan NaN%  NaNQ NaNS qNaN sNaN 1.#SNAN 1.#QNAN -1.#IND"))) + \
+            WordEnd(textchars)
 
         string_text = Word(textchars)
 
